@@ -60,9 +60,40 @@ Lemma snode_letc name body : snode (SLetC name body) = NLetContent 0 name (NList
 Lemma sdepth_letc name body : sdepth (SLetC name body) = S (S (bdepth body)). Proof. reflexivity. Qed.
 
 Definition envok (env : bstr -> option value) : Prop := forall k x, env k = Some x -> core_value x = true.
-Definition agrees (st : mstate) (env : bstr -> option value) : Prop := forall k, sc_lookup (ctx st) k = env k.
+
+Section GoStmts.
+Variable cf : cfg.
+Hypothesis Hob : c_oblig cf = [].
+Hypothesis ij_core : forall x, c_ij cf = Some x -> core_value x = true.
+(* the data of the template being rendered: what data="all" passes on *)
+Variable denv : bstr -> option value.
+Hypothesis Hdenv : envok denv.
+(* the text a template writes for given data, and a fuel that suffices for every call *)
+Variable callee : bstr -> (bstr -> option value) -> option bstr.
+Variable cfuel : nat.
+
+(* the scope stack inside a template body: the innermost frame is not the entered one, and the frames from the entered
+   one downwards (what alldata() returns) hold the template's data *)
+Definition dinv (c : scope) : Prop :=
+  exists f r s, c = f :: r /\ f_entered f = false /\ sc_alldata r = Some s /\ forall k, sc_lookup s k = denv k.
+Lemma dinv_push c : dinv c -> dinv (sc_push c).
+Proof.
+  intros (f & r & s & -> & He & Ha & Hl). exists fresh_frame, (f :: r), s. split; [reflexivity|]. split; [reflexivity|].
+  cbn [sc_alldata]. rewrite He. auto.
+Qed.
+Lemma dinv_set c k v : dinv c -> dinv (sc_set c k v).
+Proof. intros (f & r & s & -> & He & Ha & Hl). cbn [sc_set]. eexists _, r, s. split; [reflexivity|]. cbn [f_entered]. auto. Qed.
+Lemma dinv_nonempty c : dinv c -> c <> [].
+Proof. intros (f & r & s & -> & _). discriminate. Qed.
+
+Definition lookups (st : mstate) (env : bstr -> option value) : Prop := forall k, sc_lookup (ctx st) k = env k.
+Definition agrees (st : mstate) (env : bstr -> option value) : Prop := lookups st env /\ dinv (ctx st).
+Lemma agrees_ctx st st' env : ctx st' = ctx st -> agrees st env -> agrees st' env.
+Proof. intros C [H D]. split; [intro k; rewrite C; apply H|rewrite C; exact D]. Qed.
 Lemma agrees_pres st st' env : pres st st' -> agrees st env -> agrees st' env.
-Proof. intros P H k. rewrite (pres_ctx _ _ P). apply H. Qed.
+Proof. intros P. apply agrees_ctx. exact (pres_ctx _ _ P). Qed.
+Lemma agrees_push st env : agrees st env -> agrees (set_ctx st (sc_push (ctx st))) env.
+Proof. intros [H D]. split; [intro k; cbn; apply H|cbn [ctx set_ctx]; apply dinv_push; exact D]. Qed.
 
 (* what a statement does to the renderer's state: it writes text to the current writer (wrote, of
    Proofs/MiniJSStmt.v: the innermost capture buffer, or the output); the mode stays; the scope stack
@@ -86,13 +117,8 @@ Lemma bres_sres m st text env : bres m st text -> ctx st <> [] -> agrees st env 
 Proof.
   intros (st' & ws & rv & E & W & T & M' & X) Hn Ha. exists st', ws, rv.
   split; [exact E|]. split; [exact W|]. split; [exact T|]. split; [exact M'|]. split; [congruence|]. split; [congruence|].
-  intro k. rewrite X. apply Ha.
+  exact (agrees_ctx _ _ _ X Ha).
 Qed.
-
-Section GoStmts.
-Variable cf : cfg.
-Hypothesis Hob : c_oblig cf = [].
-Hypothesis ij_core : forall x, c_ij cf = Some x -> core_value x = true.
 
 Lemma walk_unfold f n st : walk cf (S f) n st = walk_node cf (walk cf f) n (set_cur st (pos_of n)).
 Proof. reflexivity. Qed.
@@ -101,8 +127,8 @@ Lemma go_eval f e st v env : agrees st env -> envok env -> (cdepth e < f)%nat ->
   mok (eval (walk cf f) (cnode e)) st v.
 Proof.
   intros Ha Hc Hf E. apply mok_eval. apply (interp_ceval cf st); auto.
-  - intros k x Hk. rewrite Ha in Hk. eapply Hc; eauto.
-  - rewrite (ceval_ext _ _ env Ha). exact E.
+  - intros k x Hk. rewrite (proj1 Ha) in Hk. eapply Hc; eauto.
+  - rewrite (ceval_ext _ _ env (proj1 Ha)). exact E.
 Qed.
 
 Lemma go_case_hit F env sv vs : envok env -> (forall x, In x vs -> (cdepth x < F)%nat) -> forall st h, agrees st env ->
@@ -119,25 +145,32 @@ Proof.
 Qed.
 
 Definition GP_s (s : cstmt) : Prop := forall f st text env env',
-  (sdepth s < f)%nat -> wok st -> ctx st <> [] -> agrees st env -> envok env ->
-  sout (c_ij cf) (mode st) go_print_text env s = Some (text, env') -> sres (walk cf f (snode s)) st text env'.
+  (cfuel + sdepth s < f)%nat -> wok st -> ctx st <> [] -> agrees st env -> envok env ->
+  sout (c_ij cf) (mode st) go_print_text denv callee env s = Some (text, env') -> sres (walk cf f (snode s)) st text env'.
 Definition GP_b (b : cblk) : Prop := forall f st text env,
-  (bdepth b <= f)%nat -> wok st -> ctx st <> [] -> agrees st env -> envok env ->
-  bout (c_ij cf) (mode st) go_print_text env b = Some text ->
+  (cfuel + bdepth b <= f)%nat -> wok st -> ctx st <> [] -> agrees st env -> envok env ->
+  bout (c_ij cf) (mode st) go_print_text denv callee env b = Some text ->
   exists st' ws, walk_list (walk cf f) (bnodes b) st = (Ok tt, st') /\ wrote st st' ws /\ concat_b ws = text
-                 /\ mode st' = mode st /\ tl (ctx st') = tl (ctx st).
+                 /\ mode st' = mode st /\ tl (ctx st') = tl (ctx st)
+                 /\ (msg_ok b = true -> agrees st' env).      (* statements that bind nothing leave the scope as it is *)
 Definition GP_e (e : celse) : Prop := forall F st text env,
-  (edepth e < F)%nat -> wok st -> agrees st env -> envok env ->
-  eout (c_ij cf) (mode st) go_print_text env e = Some text -> bres (if_conds (walk cf F) (enodes e)) st text.
+  (cfuel + edepth e < F)%nat -> wok st -> agrees st env -> envok env ->
+  eout (c_ij cf) (mode st) go_print_text denv callee env e = Some text -> bres (if_conds (walk cf F) (enodes e)) st text.
 Definition GP_k (k : ccases) : Prop := forall F st text env sv,
-  (kdepth k < F)%nat -> wok st -> agrees st env -> envok env ->
-  kout (c_ij cf) (mode st) go_print_text env sv k = Some text -> bres (switch_cases (walk cf F) sv (knodes k)) st text.
+  (cfuel + kdepth k < F)%nat -> wok st -> agrees st env -> envok env ->
+  kout (c_ij cf) (mode st) go_print_text denv callee env sv k = Some text -> bres (switch_cases (walk cf F) sv (knodes k)) st text.
+(* the parameters of a call: evaluated / rendered in the caller's scope in order, set in the innermost frame of the callee's data *)
+Definition GP_p (ps : cparams) : Prop := forall F st cd base cenv env,
+  (cfuel + pdepth ps < F)%nat -> agrees st env -> envok env ->
+  pout (c_ij cf) (mode st) go_print_text denv callee env ps base = Some cenv -> cd <> [] -> (forall k, sc_lookup cd k = base k) -> envok base ->
+  exists cd' st', call_params (walk cf F) (pnodes ps) cd st = (Ok cd', st') /\ pres st st'
+                  /\ cd' <> [] /\ (forall k, sc_lookup cd' k = cenv k) /\ envok cenv.
 
 Lemma envok_set env k v : envok env -> core_value v = true -> envok (env_set env k v).
 Proof. intros H Hv q x. unfold env_set. destruct (bstr_eqb q k); [intro E; inversion E; subst; exact Hv|apply H]. Qed.
 
 Lemma go_envok st mode env s text env' : agrees st env -> envok env ->
-  sout (c_ij cf) mode go_print_text env s = Some (text, env') -> envok env'.
+  sout (c_ij cf) mode go_print_text denv callee env s = Some (text, env') -> envok env'.
 Proof.
   intros Ha Hc. destruct s.
   - rewrite sout_raw. intro E; inversion E; subst; exact Hc.
@@ -147,41 +180,92 @@ Proof.
     destruct (ceval (c_ij cf) env e) as [v|] eqn:Ev; [|discriminate].
     intro E; inversion E; subst. apply envok_set; [exact Hc|].
     apply (ceval_core cf st) with (e := e); auto.
-    + intros k x Hk. rewrite Ha in Hk. eapply Hc; eauto.
-    + rewrite (ceval_ext _ _ env Ha). exact Ev.
+    + intros k x Hk. rewrite (proj1 Ha) in Hk. eapply Hc; eauto.
+    + rewrite (ceval_ext _ _ env (proj1 Ha)). exact Ev.
   - rewrite sout_letc. destruct (bstr_eqb name n_ij); [discriminate|]. destruct (is_ident name); [|discriminate].
-    destruct (bout (c_ij cf) mode go_print_text env body); [|discriminate].
+    destruct (bout (c_ij cf) mode go_print_text denv callee env body); [|discriminate].
     intro E; inversion E; subst. apply envok_set; [exact Hc|reflexivity].
   - rewrite sout_if. destruct (ceval (c_ij cf) env c); [|discriminate]. destruct (if truthy v then _ else _); [|discriminate]. intro E; inversion E; subst; exact Hc.
   - rewrite sout_switch. destruct (ceval (c_ij cf) env v); [|discriminate]. destruct (prim_value v0); [|discriminate].
-    destruct (kout (c_ij cf) mode go_print_text env v0 cs); [|discriminate]. intro E; inversion E; subst; exact Hc.
+    destruct (kout (c_ij cf) mode go_print_text denv callee env v0 cs); [|discriminate]. intro E; inversion E; subst; exact Hc.
   - rewrite sout_for. destruct (is_ident x && negb (bstr_eqb x n_ij)); [|discriminate].
     destruct (ceval (c_ij cf) env e) as [[| | | | | |lid l|]|]; try discriminate. destruct (small (Z.of_nat (length l))); [|discriminate].
     destruct l as [|v0 r0].
-    + destruct hasie; [destruct (bout (c_ij cf) mode go_print_text env ie); [|discriminate]|]; intro E; inversion E; subst; exact Hc.
+    + destruct hasie; [destruct (bout (c_ij cf) mode go_print_text denv callee env ie); [|discriminate]|]; intro E; inversion E; subst; exact Hc.
     + destruct (for_out _ _ _ _ _); [|discriminate]. intro E; inversion E; subst; exact Hc.
   - rewrite sout_forrange. destruct (is_ident x && negb (bstr_eqb x n_ij)); [|discriminate].
     destruct (cints (c_ij cf) env (a1 :: rest)) as [zs|]; [|discriminate]. destruct (range_args 0%Z 1%Z zs) as [[[a l] stp]|]; [|discriminate].
     destruct ((0 <? stp)%Z && small (l - a)); [|discriminate]. cbn zeta.
     destruct (range_items (Z.to_nat (Z.max 0 (l - a))) a l stp) as [|v0 r0].
-    + destruct hasie; [destruct (bout (c_ij cf) mode go_print_text env ie); [|discriminate]|]; intro E; inversion E; subst; exact Hc.
+    + destruct hasie; [destruct (bout (c_ij cf) mode go_print_text denv callee env ie); [|discriminate]|]; intro E; inversion E; subst; exact Hc.
     + destruct (for_out _ _ _ _ _); [|discriminate]. intro E; inversion E; subst; exact Hc.
   - rewrite sout_css. destruct e as [x|]; [destruct (ceval (c_ij cf) env x); [|discriminate]; destruct (scalar_string v); [|discriminate]|];
       intro E; inversion E; subst; exact Hc.
+  - rewrite sout_call. destruct (cdata_env _ _ _ _); [|discriminate]. destruct (pout _ _ _ _ _ _ _ _); [|discriminate].
+    destruct (callee _ _); [|discriminate]. intro E; inversion E; subst; exact Hc.
+  - rewrite sout_msg. destruct (msg_ok body); [|discriminate]. destruct (bout _ _ _ _ _ _ _); [|discriminate]. intro E; inversion E; subst; exact Hc.
+Qed.
+
+(* ---- calls ---- *)
+Lemma snode_call name d ps : snode (SCall name d ps) = NCall 0 name (cdata_all d) (cdata_node d) (pnodes ps). Proof. reflexivity. Qed.
+Lemma sdepth_call name d ps : sdepth (SCall name d ps) = S (S (Nat.max (ddepth d) (pdepth ps))). Proof. reflexivity. Qed.
+Lemma snode_msg body : snode (SMsg body) = NMsg 0 0 [] [] (mnodes body). Proof. reflexivity. Qed.
+Lemma sdepth_msg body : sdepth (SMsg body) = S (bdepth body). Proof. reflexivity. Qed.
+Lemma pnodes_val k e r : pnodes (PVal k e r) = NParamValue 0 k (cnode e) :: pnodes r. Proof. reflexivity. Qed.
+Lemma pnodes_cont k body r : pnodes (PCont k body r) = NParamContent 0 k (NList 0 (bnodes body)) :: pnodes r. Proof. reflexivity. Qed.
+Lemma pdepth_val k e r : pdepth (PVal k e r) = Nat.max (cdepth e) (pdepth r). Proof. reflexivity. Qed.
+Lemma pdepth_cont k body r : pdepth (PCont k body r) = Nat.max (bdepth body) (pdepth r). Proof. reflexivity. Qed.
+
+Lemma go_core st env e v : agrees st env -> envok env -> ceval (c_ij cf) env e = Some v -> core_value v = true.
+Proof.
+  intros Ha Hc Ev. apply (ceval_core cf st) with (e := e); auto.
+  - intros k x Hk. rewrite (proj1 Ha) in Hk. eapply Hc; eauto.
+  - rewrite (ceval_ext _ _ env (proj1 Ha)). exact Ev.
+Qed.
+
+(* the template a call names exists, and entering it with a scope that holds the callee's data writes the callee's text
+   and gives the caller's scope and mode back: for the entry template of the induction on the call depth this is the
+   induction hypothesis *)
+Hypothesis Hfind : forall name cenv text, callee name cenv = Some text ->
+  exists t, find_template (r_templates (c_reg cf)) name = Some t /\
+    forall f st cd, (cfuel <= f)%nat -> wok st -> cd <> [] -> (forall k, sc_lookup cd k = cenv k) -> envok cenv ->
+      exists st' ws rv, call_enter (walk cf f) t cd st = (Ok rv, st') /\ wrote st st' ws /\ concat_b ws = text
+                        /\ mode st' = mode st /\ ctx st' = ctx st.
+
+(* evalCall's data: a fresh frame over nothing, over the frames alldata() returns, or over the map the expression gives *)
+Lemma go_call_data F d st env base : agrees st env -> envok env -> (ddepth d < F)%nat ->
+  cdata_env (c_ij cf) denv env d = Some base ->
+  exists cd st', call_data (walk cf F) (cdata_all d) (cdata_node d) st = (Ok cd, st') /\ pres st st'
+                 /\ cd <> [] /\ (forall k, sc_lookup cd k = base k) /\ envok base.
+Proof.
+  intros Ha Hc Hd E. unfold call_data. unfold mbind at 1. cbn [get]. destruct d as [| |e]; cbn [cdata_env cdata_all cdata_node ddepth] in *.
+  - inversion E; subst. exists [fresh_frame], st. split; [reflexivity|]. split; [apply pres_refl|]. split; [discriminate|].
+    split; [intro k; reflexivity|intros k x Hk; discriminate].
+  - inversion E; subst. destruct (proj2 Ha) as (f & r & s & Ec & He & Hal & Hl). rewrite Ec. cbn [sc_alldata]. rewrite He, Hal.
+    exists (sc_push s), st. split; [reflexivity|]. split; [apply pres_refl|]. split; [discriminate|].
+    split; [intro k; cbn [sc_push sc_lookup fresh_frame f_vars]; apply Hl|exact Hdenv].
+  - destruct (ceval (c_ij cf) env e) as [[| | | | | | |lid m]|] eqn:Ev; try discriminate.
+    destruct (forallb (fun kv => is_ident (fst kv)) m); [|discriminate]. inversion E; subst. clear E.
+    destruct (go_eval F e st (VMap lid m) env Ha Hc Hd Ev) as (st2 & E2 & P2).
+    unfold mbind at 1. rewrite E2. exists (sc_push (new_scope lid m)), st2. split; [reflexivity|]. split; [exact P2|]. split; [discriminate|].
+    pose proof (go_core st env e _ Ha Hc Ev) as Hcm. cbn [core_value] in Hcm.
+    split.
+    + intro k. cbn [sc_push new_scope sc_lookup fresh_frame f_vars]. unfold assoc_s at 1. destruct (assoc_s k m); reflexivity.
+    + intros k x Hk. exact (core_assoc k m x Hcm Hk).
 Qed.
 
 (* a block: NList pushes an (empty) frame, walks its statements, pops *)
-Lemma go_block b F st text env : GP_b b -> (bdepth b < F)%nat -> wok st -> agrees st env -> envok env ->
-  bout (c_ij cf) (mode st) go_print_text env b = Some text -> bres (walk cf F (NList 0 (bnodes b))) st text.
+Lemma go_block b F st text env : GP_b b -> (cfuel + bdepth b < F)%nat -> wok st -> agrees st env -> envok env ->
+  bout (c_ij cf) (mode st) go_print_text denv callee env b = Some text -> bres (walk cf F (NList 0 (bnodes b))) st text.
 Proof.
   intros Hb Hd Hg Ha Hc E. destruct F as [|f]; [lia|]. unfold bres0. rewrite walk_unfold. cbn [walk_node].
   match goal with |- context [set_cur st ?p] => set (st1 := set_cur st p) end. unfold mbind at 1. unfold m_push. cbn [modify].
   set (st2 := set_ctx st1 (sc_push (ctx st1))).
   assert (S2 : wsame st st2) by (subst st2 st1; repeat split).
-  assert (A2 : agrees st2 env) by (intro k; subst st2 st1; cbn; apply Ha).
+  assert (A2 : agrees st2 env) by (subst st2; apply agrees_push; subst st1; exact Ha).
   assert (M2 : mode st2 = mode st) by reflexivity.
   assert (N2 : ctx st2 <> []) by (subst st2; cbn; discriminate).
-  destruct (Hb f st2 text env ltac:(lia) (wsame_wok _ _ S2 Hg) N2 A2 Hc) as (st3 & ws & E3 & W3 & C3 & M3 & X3). { rewrite M2. exact E. }
+  destruct (Hb f st2 text env ltac:(lia) (wsame_wok _ _ S2 Hg) N2 A2 Hc) as (st3 & ws & E3 & W3 & C3 & M3 & X3 & _). { rewrite M2. exact E. }
   unfold mbind at 1. rewrite E3. unfold mbind at 1. unfold m_pop. cbn [modify ret].
   exists (set_ctx st3 (sc_pop (ctx st3))), ws, VUndef. split; [reflexivity|].
   split; [apply (wrote_r _ st3); [exact (wrote_l _ _ _ _ S2 W3)|repeat split]|].
@@ -189,8 +273,8 @@ Proof.
 Qed.
 
 (* renderBlock: a fresh capture buffer, the block, the buffer popped and returned as a string; any writer will do *)
-Lemma go_render_block b F st text env : GP_b b -> (bdepth b < F)%nat -> agrees st env -> envok env ->
-  bout (c_ij cf) (mode st) go_print_text env b = Some text ->
+Lemma go_render_block b F st text env : GP_b b -> (cfuel + bdepth b < F)%nat -> agrees st env -> envok env ->
+  bout (c_ij cf) (mode st) go_print_text denv callee env b = Some text ->
   exists st', render_block (walk cf F) (NList 0 (bnodes b)) st = (Ok text, st') /\ wsame st st' /\ ctx st' = ctx st /\ mode st' = mode st.
 Proof.
   intros Hb Hd Ha Hc E. unfold render_block. unfold mbind at 1. cbn [modify].
@@ -200,7 +284,7 @@ Proof.
     by (subst st2; repeat split).
   destruct R2 as (C2 & M2 & O2 & L2 & Y2). clear Hst2.
   assert (W2 : wok st2) by (unfold wok; rewrite B2; exact I).
-  assert (A2 : agrees st2 env) by (intro k; rewrite C2; apply Ha).
+  assert (A2 : agrees st2 env) by (exact (agrees_ctx _ _ _ C2 Ha)).
   destruct (go_block b F st2 text env Hb Hd W2 A2 Hc) as (st3 & ws & rv & E3 & W3 & T3 & M3 & X3). { rewrite M2. exact E. }
   unfold mbind at 1. rewrite E3. unfold mbind at 1. cbn [get].
   destruct W3 as (L3 & Y3 & W3). rewrite B2 in W3. destruct W3 as [B3 O3].
@@ -223,15 +307,17 @@ Proof.
   destruct H3 as (O3 & M3 & B3 & L3 & Y3 & C3).
   split; [repeat split; assumption|]. split; [exact M3|]. split; [rewrite C3; cbn [sc_set]; discriminate|].
   split; [rewrite C3; reflexivity|].
-  intro k. rewrite C3, sc_lookup_set by discriminate. unfold env_set. rewrite <- Ec. rewrite Ha. reflexivity.
+  split.
+  - intro k. rewrite C3, sc_lookup_set by discriminate. unfold env_set. rewrite <- Ec. rewrite (proj1 Ha). reflexivity.
+  - rewrite C3, <- Ec. apply dinv_set. exact (proj2 Ha).
 Qed.
 
 (* the rounds of a loop: $x and the hidden $x.index are set in the loop's frame, the body is a block *)
-Lemma go_rounds body (HB : GP_b body) F x m : (bdepth body < F)%nat ->
+Lemma go_rounds body (HB : GP_b body) F x m : (cfuel + bdepth body < F)%nat ->
   forall items i st envk text, mode st = m ->
     wok st -> ctx st <> [] -> agrees st envk -> envok envk ->
     (forall v, In v items -> core_value v = true) -> (0 <= i)%Z -> small (i + Z.of_nat (length items)) = true ->
-    for_out (fun en => bout (c_ij cf) m go_print_text en body) x envk i items = Some text ->
+    for_out (fun en => bout (c_ij cf) m go_print_text denv callee en body) x envk i items = Some text ->
     exists st' ws, for_items (walk cf F) x (NList 0 (bnodes body)) i items st = (Ok tt, st') /\ wrote st st' ws /\ concat_b ws = text
                    /\ mode st' = mode st /\ ctx st' <> [] /\ tl (ctx st') = tl (ctx st).
 Proof.
@@ -239,8 +325,8 @@ Proof.
   - inversion Ef; subst. exists st, []. split; [reflexivity|]. split; [apply wsame_wrote, wsame_refl|auto].
   - change s_index with jk_index.
     set (env1 := env_set (env_set envk x v) (x ++ jk_index) (VInt i)) in *.
-    destruct (bout (c_ij cf) m go_print_text env1 body) as [t|] eqn:Et; [|discriminate].
-    destruct (for_out (fun en => bout (c_ij cf) m go_print_text en body) x env1 (i + 1)%Z r) as [t'|] eqn:Er; [|discriminate].
+    destruct (bout (c_ij cf) m go_print_text denv callee env1 body) as [t|] eqn:Et; [|discriminate].
+    destruct (for_out (fun en => bout (c_ij cf) m go_print_text denv callee en body) x env1 (i + 1)%Z r) as [t'|] eqn:Er; [|discriminate].
     inversion Ef; subst text. clear Ef.
     destruct (go_set st x v envk Hn Ha) as (st1 & E1 & S1 & M1 & N1 & T1 & A1).
     destruct (go_set st1 (x ++ jk_index) (VInt i) _ N1 A1) as (st2 & E2 & S2 & M2 & N2 & T2 & A2).
@@ -256,7 +342,7 @@ Proof.
     + congruence.
     + exact (wrote_wok _ _ _ W3 (wsame_wok _ _ S12 Hg)).
     + congruence.
-    + intro k. rewrite X3. apply A2.
+    + exact (agrees_ctx _ _ _ X3 A2).
     + exact Hc1.
     + intros v' Hv'. apply Hcore. right. exact Hv'.
     + lia.
@@ -302,8 +388,8 @@ Proof.
   (* each argument is core data *)
   assert (Hcore : forall e z, ceval (c_ij cf) env e = Some (VInt z) -> small z = true).
   { intros e z He. apply (ceval_core cf st) with (e := e) (v := VInt z); auto.
-    - intros k y Hk. rewrite Ha in Hk. eapply Hc; eauto.
-    - rewrite (ceval_ext _ _ env Ha). exact He. }
+    - intros k y Hk. rewrite (proj1 Ha) in Hk. eapply Hc; eauto.
+    - rewrite (ceval_ext _ _ env (proj1 Ha)). exact He. }
   destruct (range_cnt_bound a l stp Hst) as (C0 & C1 & C2).
   (* the list with the renderer's fuel *)
   assert (Hgo : forall fuel, (range_cnt a l stp <= Z.of_nat fuel)%Z ->
@@ -354,13 +440,13 @@ Qed.
 (* what a loop over the list l writes *)
 Definition for_text (m : N) (x : bstr) (body : cblk) (hasie : bool) (ie : cblk) (env : bstr -> option value) (l : list value) (text : bstr) : Prop :=
   match l with
-  | [] => if hasie then bout (c_ij cf) m go_print_text env ie = Some text else text = []
-  | _ :: _ => for_out (fun en => bout (c_ij cf) m go_print_text en body) x (env_set env (x ++ c_lastindex) (VInt (Z.of_nat (length l) - 1))) 0%Z l = Some text
+  | [] => if hasie then bout (c_ij cf) m go_print_text denv callee env ie = Some text else text = []
+  | _ :: _ => for_out (fun en => bout (c_ij cf) m go_print_text denv callee en body) x (env_set env (x ++ c_lastindex) (VInt (Z.of_nat (length l) - 1))) 0%Z l = Some text
   end.
 
 (* visitFor / evalFor once the list expression has its value: foreach and for-range share it *)
 Lemma go_for_walk x lst body hasie ie (IHb : GP_b body) (IHi : GP_b ie) F st l text env :
-  (bdepth body < F)%nat -> (bdepth ie < F)%nat -> wok st -> ctx st <> [] -> agrees st env -> envok env ->
+  (cfuel + bdepth body < F)%nat -> (cfuel + bdepth ie < F)%nat -> wok st -> ctx st <> [] -> agrees st env -> envok env ->
   (forall st1, pres st st1 -> exists lid, mok (eval (walk cf F) lst) st1 (VList lid l)) ->
   small (Z.of_nat (length l)) = true -> forallb core_value l = true ->
   for_text (mode st) x body hasie ie env l text ->
@@ -387,7 +473,7 @@ Proof.
     unfold mbind at 1. unfold m_push. cbn [modify].
     set (stp := set_ctx st2 (sc_push (ctx st2))).
     assert (Sp : wsame st2 stp) by (subst stp; repeat split).
-    assert (Ap : agrees stp env) by (intro k; subst stp; cbn; apply Ha2).
+    assert (Ap : agrees stp env) by (subst stp; apply agrees_push; exact Ha2).
     assert (Np : ctx stp <> []) by (subst stp; cbn; discriminate).
     change s_lastindex with c_lastindex.
     destruct (go_set stp (x ++ c_lastindex) (VInt last) env Np Ap) as (st3 & E3 & S3 & M3 & N3 & T3 & A3).
@@ -411,7 +497,19 @@ Proof.
       unfold sc_pop. rewrite T4, T3. subst stp. cbn. apply P.
 Qed.
 
-Theorem interp_all : (forall s, GP_s s) /\ (forall b, GP_b b) /\ (forall e, GP_e e) /\ (forall k, GP_k k).
+(* walkMsgBody on the children of a message without plural: raw text is walked, a placeholder's body is walked *)
+Lemma go_msg_body F body : msg_ok body = true -> forall st,
+  msg_body (walk cf F) 0 (mnodes body) st = walk_list (walk cf F) (bnodes body) st.
+Proof.
+  induction body as [|s r IH]; intros Hm st; [reflexivity|]. cbn [msg_ok] in Hm. apply andb_prop in Hm. destruct Hm as [Hs Hr].
+  cbn [mnodes bnodes]. fold bnodes.
+  assert (Hstep : forall x, msg_body (walk cf F) 0 (x :: mnodes r) st = (_ <-- walk cf F (snode s) ;;; msg_body (walk cf F) 0 (mnodes r)) st ->
+                  msg_body (walk cf F) 0 (x :: mnodes r) st = walk_list (walk cf F) (snode s :: bnodes r) st).
+  { intros x Hx. rewrite Hx. cbn [walk_list]. unfold mbind. destruct (walk cf F (snode s) st) as [[v| | | | |] st1]; try reflexivity. apply IH; exact Hr. }
+  destruct s; try discriminate Hs; apply Hstep; reflexivity.
+Qed.
+
+Theorem interp_all : (forall s, GP_s s) /\ (forall b, GP_b b) /\ (forall e, GP_e e) /\ (forall k, GP_k k) /\ (forall ps, GP_p ps).
 Proof.
   apply cstmt_mutind.
   - (* raw text *) intros t f st text env env' Hf Hg Hn Ha Hc E. rewrite sout_raw in E. inversion E; subst.
@@ -426,9 +524,9 @@ Proof.
     destruct (cleanb str); [|discriminate]. inversion E; subst. clear E.
     apply bres_sres; auto. rewrite snode_print.
     destruct (scalar_string_ok v str Es) as (Hp & Hvs & _).
-    assert (Ev' : ceval (c_ij cf) (sc_lookup (ctx st)) e = Some v) by (rewrite (ceval_ext _ _ env' Ha); exact Ev).
+    assert (Ev' : ceval (c_ij cf) (sc_lookup (ctx st)) e = Some v) by (rewrite (ceval_ext _ _ env' (proj1 Ha)); exact Ev).
     destruct (interp_print_dirs_w cf e ds f st v str Hob Hg) as (st' & ws & E1 & W1 & C1 & X1 & M1); auto.
-    + intros k x Hk. rewrite Ha in Hk. eapply Hc; eauto.
+    + intros k x Hk. rewrite (proj1 Ha) in Hk. eapply Hc; eauto.
     + cbn [sdepth] in Hf. lia.
     + destruct v; try discriminate; discriminate.
     + exists st', ws, VUndef. split; [exact E1|]. split; [exact W1|]. split; [exact C1|]. split; [exact M1|exact X1].
@@ -447,20 +545,20 @@ Proof.
     split; [exact N3|]. split; [congruence|exact A3].
   - (* let, content form *) intros name body IHb f st text env env' Hf Hg Hn Ha Hc E. rewrite sout_letc in E.
     destruct (bstr_eqb name n_ij); [discriminate|]. destruct (is_ident name); [|discriminate].
-    destruct (bout (c_ij cf) (mode st) go_print_text env body) as [t|] eqn:Et; [|discriminate]. inversion E; subst. clear E.
+    destruct (bout (c_ij cf) (mode st) go_print_text denv callee env body) as [t|] eqn:Et; [|discriminate]. inversion E; subst. clear E.
     rewrite sdepth_letc in Hf. destruct f as [|F]; [lia|]. unfold sres. rewrite walk_unfold, snode_letc. cbn [walk_node].
     match goal with |- context [set_cur st ?p] => set (st1 := set_cur st p) end.
     assert (P1 : pres st st1) by apply pres_set_cur. pose proof P1 as (C1 & Mo1 & _).
     destruct (go_render_block body F st1 t env IHb ltac:(lia) (agrees_pres _ _ _ P1 Ha) Hc) as (st4 & E4 & S4 & C4 & M4).
     { rewrite Mo1. exact Et. }
     unfold mbind at 1. rewrite E4.
-    destruct (go_set st4 name (VStr t) env ltac:(congruence) ltac:(intro k; rewrite C4, C1; apply Ha)) as (st5 & E5 & S5 & M5 & N5 & T5 & A5).
+    destruct (go_set st4 name (VStr t) env ltac:(congruence) (agrees_ctx _ _ _ (eq_trans C4 C1) Ha)) as (st5 & E5 & S5 & M5 & N5 & T5 & A5).
     unfold mbind at 1. rewrite E5. cbn [ret]. exists st5, [], VUndef. split; [reflexivity|].
     split; [apply wsame_wrote; exact (wsame_trans _ _ _ (wsame_trans _ _ _ (pres_wsame _ _ P1) S4) S5)|]. split; [reflexivity|].
     split; [congruence|]. split; [exact N5|]. split; [congruence|exact A5].
   - (* if *) intros c th IHt rest IHr f st text env env' Hf Hg Hn Ha Hc E. rewrite sout_if in E.
     destruct (ceval (c_ij cf) env c) as [v|] eqn:Ev; [|discriminate].
-    destruct (if truthy v then bout (c_ij cf) (mode st) go_print_text env th else eout (c_ij cf) (mode st) go_print_text env rest) as [t|] eqn:Et; [|discriminate].
+    destruct (if truthy v then bout (c_ij cf) (mode st) go_print_text denv callee env th else eout (c_ij cf) (mode st) go_print_text denv callee env rest) as [t|] eqn:Et; [|discriminate].
     inversion E; subst. clear E. apply bres_sres; auto.
     rewrite sdepth_if in Hf. destruct f as [|F]; [lia|]. unfold bres0. rewrite walk_unfold, snode_if. cbn [walk_node if_conds].
     match goal with |- context [set_cur st ?p] => set (st1 := set_cur st p) end.
@@ -476,7 +574,7 @@ Proof.
       * lia. * eapply agrees_pres; eauto. * rewrite Mo. exact Et.
   - (* switch *) intros v cs IHk f st text env env' Hf Hg Hn Ha Hc E. rewrite sout_switch in E.
     destruct (ceval (c_ij cf) env v) as [sv|] eqn:Ev; [|discriminate]. destruct (prim_value sv); [|discriminate].
-    destruct (kout (c_ij cf) (mode st) go_print_text env sv cs) as [t|] eqn:Et; [|discriminate]. inversion E; subst. clear E.
+    destruct (kout (c_ij cf) (mode st) go_print_text denv callee env sv cs) as [t|] eqn:Et; [|discriminate]. inversion E; subst. clear E.
     apply bres_sres; auto.
     rewrite sdepth_switch in Hf. destruct f as [|F]; [lia|]. unfold bres0. rewrite walk_unfold, snode_switch. cbn [walk_node].
     match goal with |- context [set_cur st ?p] => set (st1 := set_cur st p) end.
@@ -493,12 +591,12 @@ Proof.
     destruct (small (Z.of_nat (length l))) eqn:Hsm; [|discriminate].
     assert (Hcl : forallb core_value l = true).
     { apply (ceval_core cf st) with (e := e) (v := VList lid l); auto.
-      - intros k y Hk. rewrite Ha in Hk. eapply Hc; eauto.
-      - rewrite (ceval_ext _ _ env Ha). exact Ev. }
+      - intros k y Hk. rewrite (proj1 Ha) in Hk. eapply Hc; eauto.
+      - rewrite (ceval_ext _ _ env (proj1 Ha)). exact Ev. }
     rewrite sdepth_for in Hf. destruct f as [|F]; [lia|]. rewrite snode_for.
     assert (Hout : env' = env /\ for_text (mode st) x body hasie ie env l text).
     { unfold for_text. destruct l as [|v0 r0].
-      - destruct hasie; [destruct (bout (c_ij cf) (mode st) go_print_text env ie); [|discriminate]|]; inversion E; auto.
+      - destruct hasie; [destruct (bout (c_ij cf) (mode st) go_print_text denv callee env ie); [|discriminate]|]; inversion E; auto.
       - destruct (for_out _ _ _ _ _); [|discriminate]. inversion E; auto. }
     destruct Hout as [-> Hout]. apply bres_sres; auto.
     apply (go_for_walk x (cnode e) body hasie ie IHb IHi F st l text env); auto; try lia.
@@ -526,7 +624,7 @@ Proof.
       rewrite lin_list_length in Hl2. left. clear - Hl2 C0 C1 C2 Hst. nia. }
     assert (Hout : env' = env /\ for_text (mode st) x body hasie ie env items text).
     { unfold for_text. destruct items as [|v0 r0].
-      - destruct hasie; [destruct (bout (c_ij cf) (mode st) go_print_text env ie); [|discriminate]|]; inversion E; auto.
+      - destruct hasie; [destruct (bout (c_ij cf) (mode st) go_print_text denv callee env ie); [|discriminate]|]; inversion E; auto.
       - destruct (for_out _ _ _ _ _); [|discriminate]. inversion E; auto. }
     destruct Hout as [-> Hout]. apply bres_sres; auto.
     apply (go_for_walk x _ body hasie ie IHb IHi (S F') st items text env); auto; try lia.
@@ -554,17 +652,56 @@ Proof.
         unfold mbind at 1. rewrite E3. exists st3, [text], VUndef. split; [reflexivity|].
         split; [exact (wrote_l _ _ _ _ (pres_wsame _ _ P1) W3)|]. split; [cbn; apply app_nil_r|]. split; [exact M3|exact C3]. }
     destruct Hmain as (-> & Hbres). apply bres_sres; auto.
+  - (* call *) intros name d ps IHp f st text env env' Hf Hg Hn Ha Hc E. rewrite sout_call in E.
+    destruct (cdata_env (c_ij cf) denv env d) as [base|] eqn:Ed; [|discriminate].
+    destruct (pout (c_ij cf) (mode st) go_print_text denv callee env ps base) as [cenv|] eqn:Ep; [|discriminate].
+    destruct (callee name cenv) as [t|] eqn:Ec; [|discriminate]. inversion E; subst. clear E.
+    destruct (Hfind name cenv text Ec) as (tm & Eft & Hrun).
+    apply bres_sres; auto. rewrite sdepth_call in Hf. destruct f as [|F]; [lia|]. unfold bres0. rewrite walk_unfold, snode_call. cbn [walk_node]. rewrite Eft.
+    match goal with |- context [set_cur st ?p] => set (st1 := set_cur st p) end.
+    assert (P1 : pres st st1) by apply pres_set_cur.
+    destruct (go_call_data F d st1 env' base (agrees_pres _ _ _ P1 Ha) Hc ltac:(lia) Ed) as (cd & st2 & E2 & P2 & Ncd & Lcd & Hbase).
+    unfold mbind at 1. rewrite E2.
+    pose proof (pres_trans _ _ _ P1 P2) as P12.
+    destruct (IHp F st2 cd base cenv env' ltac:(lia) (agrees_pres _ _ _ P12 Ha) Hc) as (cd' & st3 & E3 & P3 & Ncd' & Lcd' & Hcenv); auto.
+    { rewrite (proj1 (proj2 P12)). exact Ep. }
+    unfold mbind at 1. rewrite E3. unfold mbind at 1. cbn [modify].
+    pose proof (pres_trans _ _ _ P12 P3) as P13.
+    set (st4 := set_cur st3 0).
+    assert (P4 : pres st st4) by (eapply pres_trans; [exact P13|apply pres_set_cur]).
+    destruct (Hrun F st4 cd' ltac:(lia) (wsame_wok _ _ (pres_wsame _ _ P4) Hg) Ncd' Lcd' Hcenv) as (st5 & ws & rv & E5 & W5 & C5 & M5 & X5).
+    exists st5, ws, rv. split; [exact E5|]. split; [exact (wrote_l _ _ _ _ (pres_wsame _ _ P4) W5)|]. split; [exact C5|].
+    pose proof P4 as (C4 & M4 & _). split; congruence.
+  - (* msg *) intros body IHb f st text env env' Hf Hg Hn Ha Hc E. rewrite sout_msg in E.
+    destruct (msg_ok body) eqn:Hm; [|discriminate].
+    destruct (bout (c_ij cf) (mode st) go_print_text denv callee env body) as [t|] eqn:Et; [|discriminate]. inversion E; subst. clear E.
+    rewrite sdepth_msg in Hf. destruct f as [|F]; [lia|]. unfold sres. rewrite walk_unfold, snode_msg. cbn [walk_node].
+    match goal with |- context [set_cur st ?p] => set (st1 := set_cur st p) end.
+    assert (P1 : pres st st1) by apply pres_set_cur. pose proof P1 as (C1 & M1 & _).
+    destruct (IHb F st1 text env' ltac:(lia) (wsame_wok _ _ (pres_wsame _ _ P1) Hg) ltac:(congruence) (agrees_pres _ _ _ P1 Ha) Hc)
+      as (st2 & ws & E2 & W2 & T2 & M2 & X2 & A2). { rewrite M1. exact Et. }
+    unfold mbind at 1. rewrite (go_msg_body F body Hm), E2. cbn [ret].
+    exists st2, ws, VUndef. split; [reflexivity|]. split; [exact (wrote_l _ _ _ _ (pres_wsame _ _ P1) W2)|]. split; [exact T2|].
+    split; [congruence|]. split; [exact (dinv_nonempty _ (proj2 (A2 Hm)))|]. split; [congruence|exact (A2 Hm)].
   - (* BNil *) intros f st text env Hf Hg Hn Ha Hc E. rewrite bout_nil in E. inversion E; subst. exists st, [].
     split; [reflexivity|]. split; [apply wsame_wrote, wsame_refl|auto].
   - (* BCons *) intros s IHs r IHr f st text env Hf Hg Hn Ha Hc E. rewrite bout_cons in E. rewrite bdepth_cons in Hf.
-    destruct (sout (c_ij cf) (mode st) go_print_text env s) as [[a env1]|] eqn:Ea; [|discriminate].
-    destruct (bout (c_ij cf) (mode st) go_print_text env1 r) as [c0|] eqn:Er; [|discriminate]. inversion E; subst. clear E.
+    destruct (sout (c_ij cf) (mode st) go_print_text denv callee env s) as [[a env1]|] eqn:Ea; [|discriminate].
+    destruct (bout (c_ij cf) (mode st) go_print_text denv callee env1 r) as [c0|] eqn:Er; [|discriminate]. inversion E; subst. clear E.
     destruct (IHs f st a env env1 ltac:(lia) Hg Hn Ha Hc Ea) as (st1 & ws1 & rv & E1 & W1 & C1 & M1 & N1 & T1 & A1).
     rewrite bnodes_cons. cbn [walk_list]. unfold mbind at 1. rewrite E1.
-    destruct (IHr f st1 c0 env1 ltac:(lia) (wrote_wok _ _ _ W1 Hg) N1 A1 (go_envok st _ env s a env1 Ha Hc Ea)) as (st2 & ws2 & E2 & W2 & C2 & M2 & T2).
+    destruct (IHr f st1 c0 env1 ltac:(lia) (wrote_wok _ _ _ W1 Hg) N1 A1 (go_envok st _ env s a env1 Ha Hc Ea)) as (st2 & ws2 & E2 & W2 & C2 & M2 & T2 & Am2).
     { rewrite M1. exact Er. }
     exists st2, (ws1 ++ ws2). split; [exact E2|]. split; [exact (wrote_trans _ _ _ _ _ W1 W2)|].
-    split; [rewrite concat_b_app; congruence|]. split; congruence.
+    split; [rewrite concat_b_app; congruence|]. split; [congruence|]. split; [congruence|].
+    intro Hm. cbn [msg_ok] in Hm. apply andb_prop in Hm. destruct Hm as [Hs Hr].
+    replace env with env1; [exact (Am2 Hr)|].
+    destruct s; try discriminate Hs.
+    + rewrite sout_raw in Ea. inversion Ea; reflexivity.
+    + rewrite sout_print in Ea. destruct (ceval (c_ij cf) env e); [|discriminate]. destruct (scalar_string v); [|discriminate].
+      destruct (cleanb b); [|discriminate]. inversion Ea; reflexivity.
+    + rewrite sout_call in Ea. destruct (cdata_env _ _ _ _); [|discriminate]. destruct (pout _ _ _ _ _ _ _ _); [|discriminate].
+      destruct (callee _ _); [|discriminate]. inversion Ea; reflexivity.
   - (* ENone *) intros F st text env Hf Hg Ha Hc E. rewrite eout_none in E. inversion E; subst. exists st, [], VUndef.
     split; [reflexivity|]. split; [apply wsame_wrote, wsame_refl|auto].
   - (* EElse *) intros b IHb F st text env Hf Hg Ha Hc E. rewrite eout_else in E. rewrite edepth_else in Hf.
@@ -597,5 +734,29 @@ Proof.
       * lia. * eapply agrees_pres; eauto. * rewrite Mo. exact E.
     + apply (bres0_pres st _ st2 text P). apply (IHr F st2 text env sv); auto.
       * lia. * eapply agrees_pres; eauto. * rewrite Mo. exact E.
+  - (* PNil *) intros F st cd base cenv env Hf Ha Hc E Hn Hl Hb. rewrite pout_nil in E. inversion E; subst.
+    exists cd, st. split; [reflexivity|]. split; [apply pres_refl|auto].
+  - (* PVal *) intros k e r IHr F st cd base cenv env Hf Ha Hc E Hn Hl Hb. rewrite pout_val in E. rewrite pdepth_val in Hf. rewrite pnodes_val. cbn [call_params].
+    destruct (is_ident k); [|discriminate]. destruct (ceval (c_ij cf) env e) as [v|] eqn:Ev; [|discriminate].
+    destruct (go_eval F e st v env Ha Hc ltac:(lia) Ev) as (st2 & E2 & P2).
+    unfold mbind at 1. rewrite E2.
+    destruct (IHr F st2 (sc_set cd k v) (env_set base k v) cenv env ltac:(lia) (agrees_pres _ _ _ P2 Ha) Hc) as (cd' & st3 & E3 & P3 & R).
+    + rewrite (proj1 (proj2 P2)). exact E.
+    + destruct cd; [congruence|discriminate].
+    + intro q. rewrite sc_lookup_set by exact Hn. unfold env_set. rewrite Hl. reflexivity.
+    + apply envok_set; [exact Hb|exact (go_core st env e v Ha Hc Ev)].
+    + exists cd', st3. split; [exact E3|]. split; [eapply pres_trans; eauto|exact R].
+  - (* PCont *) intros k body IHb r IHr F st cd base cenv env Hf Ha Hc E Hn Hl Hb. rewrite pout_cont in E. rewrite pdepth_cont in Hf. rewrite pnodes_cont. cbn [call_params].
+    destruct (is_ident k); [|discriminate].
+    destruct (bout (c_ij cf) (mode st) go_print_text denv callee env body) as [t|] eqn:Et; [|discriminate].
+    destruct (go_render_block body F st t env IHb ltac:(lia) Ha Hc Et) as (st2 & E2 & S2 & C2 & M2).
+    unfold mbind at 1. rewrite E2.
+    assert (P2 : pres st st2) by (destruct S2 as (O2 & B2 & L2 & Y2); repeat split; assumption).
+    destruct (IHr F st2 (sc_set cd k (VStr t)) (env_set base k (VStr t)) cenv env ltac:(lia) (agrees_ctx _ _ _ C2 Ha) Hc) as (cd' & st3 & E3 & P3 & R).
+    + rewrite M2. exact E.
+    + destruct cd; [congruence|discriminate].
+    + intro q. rewrite sc_lookup_set by exact Hn. unfold env_set. rewrite Hl. reflexivity.
+    + apply envok_set; [exact Hb|reflexivity].
+    + exists cd', st3. split; [exact E3|]. split; [eapply pres_trans; eauto|exact R].
 Qed.
 End GoStmts.
